@@ -219,18 +219,20 @@ def mk_m1(db, ver, vconst, obj=True):
     return M1
 
 
-def mk_t1(obj=True):
+def mk_t1(obj=True, deps2=False):
+    """deps2: the same-named, same-version class with ANOTHER dependency list (m1, src) and a computation using it"""
     import strax
 
     class T1(strax.Plugin):
-        provides = ("t1",); depends_on = ("m1",); data_kind = "kt1"; dtype = ctx.dt(D, obj)
+        provides = ("t1",); depends_on = ("m1", "src") if deps2 else ("m1",); data_kind = "kt1"; dtype = ctx.dt(D, obj)
         __version__ = "0"
 
-        def compute(self, km1):
+        def compute(self, **kw):
+            km1 = kw["km1"]
             r = ctx.new_arr(D, len(km1), obj)
             for q in range(len(km1)):
                 r["time"][q], r["endtime"][q], r["id"][q] = km1["time"][q], km1["endtime"][q], km1["id"][q]
-                r["val"][q] = km1["val"][q] + 1
+                r["val"][q] = km1["val"][q] + 1 + (1000 + kw["ksrc"]["val"][q] if deps2 else 0)
             return r
 
     return T1
@@ -257,7 +259,7 @@ def sym_history(ops, obj=True, bname="b", mixed=False):
 
     da = fresh_int("da"); du = fresh_int("du"); db = fresh_int("db")
     vs = fresh_int("v_src"); vm = fresh_int("v_m1")
-    state = dict(da=da, du=du, db=db, vs=vs, vm=vm, cfg={})
+    state = dict(da=da, du=du, db=db, vs=vs, vm=vm, cfg={}, t1deps=False)
     if mixed:
         _MIX[0] = du
     fe = tok_frontend()
@@ -285,6 +287,9 @@ def sym_history(ops, obj=True, bname="b", mixed=False):
         elif op == "reg_m1_version":
             v = fresh_int(f"x{n}"); state["vm"] = v
             st.register(mk_m1(state["db"], state["vm"], state["vm"], obj))
+        elif op == "reg_t1_deps":
+            state["t1deps"] = True
+            st.register(mk_t1(obj, True))
         elif op == "new_context":
             st = st.new_context()
         elif op == "make_t1":
@@ -293,7 +298,7 @@ def sym_history(ops, obj=True, bname="b", mixed=False):
             _vals(st, "m1")
         elif op == "get_t1_ctx2":
             other = ctx.make_context([mk_src(state["da"], state["du"], state["vs"], obj),
-                                      mk_m1(state["db"], state["vm"], state["vm"], obj), mk_t1(obj)], storage=[fe],
+                                      mk_m1(state["db"], state["vm"], state["vm"], obj), mk_t1(obj, state["t1deps"])], storage=[fe],
                                      config=dict(state["cfg"]))
             _vals(other, "t1")
         after = keys(st)
@@ -301,7 +306,8 @@ def sym_history(ops, obj=True, bname="b", mixed=False):
         def eff(s):
             a = s["cfg"].get("a", s["da"]); b = s["cfg"].get(bname, s["db"])
             u = s["cfg"].get("u", s["du"]) if mixed else 0  # tracked by m1 in the mixed variant, never by src
-            return dict(src=(a, s["vs"]), m1=(a, s["vs"], b, s["vm"], u), t1=(a, s["vs"], b, s["vm"], u))
+            return dict(src=(a, s["vs"]), m1=(a, s["vs"], b, s["vm"], u),
+                        t1=(a, s["vs"], b, s["vm"], u, 1 if s["t1deps"] else 0))
         e0, e1 = eff(old), eff(state)
         for d in TYPES:
             same_lineage = sand(*[x == y for x, y in zip(e0[d], e1[d])])
@@ -310,7 +316,7 @@ def sym_history(ops, obj=True, bname="b", mixed=False):
                                                 f"an ancestor changed")
     # ---- final comparison with a brand-new context (same final registry + config, EMPTY store)
     fresh = ctx.make_context([mk_src(state["da"], state["du"], state["vs"], obj),
-                              mk_m1(state["db"], state["vm"], state["vm"], obj), mk_t1(obj)],
+                              mk_m1(state["db"], state["vm"], state["vm"], obj), mk_t1(obj, state["t1deps"])],
                              storage=[tok_frontend()], config=dict(state["cfg"]))
     kf, kh = keys(fresh), keys(st)
     for d in TYPES:
@@ -331,12 +337,13 @@ def nat_history(params, model):
     bname = _BNAME[0] = params.get("bname", "b")
     mixed = params.get("mixed", False)
     m = lambda k: int(model.get(k, 0))
-    state = dict(da=m("da"), du=m("du"), db=m("db"), vs=m("v_src"), vm=m("v_m1"), cfg={})
+    state = dict(da=m("da"), du=m("du"), db=m("db"), vs=m("v_src"), vm=m("v_m1"), cfg={}, t1deps=False)
     _MIX[0] = state["du"] if mixed else None
     _TUP[0] = None
     MemFrontend, _, _ = ctx.make_storage_classes()
     fe = MemFrontend()
-    mk = lambda s: [mk_src(s["da"], s["du"], str(s["vs"]), False), mk_m1(s["db"], str(s["vm"]), s["vm"], False), mk_t1(False)]
+    mk = lambda s: [mk_src(s["da"], s["du"], str(s["vs"]), False), mk_m1(s["db"], str(s["vm"]), s["vm"], False),
+                    mk_t1(False, s["t1deps"])]
     with warnings.catch_warnings():
         warnings.simplefilter("ignore")
         st = ctx.make_context(mk(state), storage=[fe])
@@ -345,7 +352,7 @@ def nat_history(params, model):
         def eff(s):
             a = s["cfg"].get("a", s["da"]); b = s["cfg"].get(bname, s["db"])
             u = s["cfg"].get("u", s["du"]) if mixed else 0
-            return dict(src=(a, s["vs"]), m1=(a, s["vs"], b, s["vm"], u), t1=(a, s["vs"], b, s["vm"], u))
+            return dict(src=(a, s["vs"]), m1=(a, s["vs"], b, s["vm"], u), t1=(a, s["vs"], b, s["vm"], u, 1 if s["t1deps"] else 0))
 
         for n, op in enumerate(ops):
             v = m(f"x{n}")
@@ -363,6 +370,8 @@ def nat_history(params, model):
                 state["db"] = v; st.register(mk(state)[1])
             elif op == "reg_m1_version":
                 state["vm"] = v; st.register(mk(state)[1])
+            elif op == "reg_t1_deps":
+                state["t1deps"] = True; st.register(mk(state)[2])
             elif op == "new_context":
                 st = st.new_context()
             elif op == "make_t1":
@@ -673,6 +682,9 @@ def _grid(tier):
     for a, b in itertools.product(base[:6], repeat=2):
         if a != b:
             g.append(dict(ops=["make_t1", a, b]))
+    # a same-named class with the same version but another dependency list
+    for h in (["reg_t1_deps"], ["make_t1", "reg_t1_deps"]):
+        g.append(dict(ops=h))
     # one option taken by two plugins, untracked in src and TRACKED in m1 (the track flag is per plugin, not per name)
     for h in (["set_u"], ["make_t1", "set_u"], ["get_m1", "set_u", "get_m1"], ["set_u", "get_t1_ctx2"], ["make_t1", "set_u", "set_a"]):
         g.append(dict(ops=h, mixed=True))
